@@ -224,10 +224,7 @@ func (srv *Session) handleCommand(ctx context.Context, conn net.Conn, t types.Cl
 		// https://github.com/postgres/postgres/blob/6e1dd2773eb60a6ab87b27b8d9391b756e904ac3/src/backend/tcop/postgres.c#L4295
 		return nil
 	case types.ClientClose:
-		// TODO: close the statement or portal
-		writer.Start(types.ServerCloseComplete) //nolint:errcheck
-		writer.End()                            //nolint:errcheck
-		return nil
+		return srv.handleClose(ctx, reader, writer)
 	case types.ClientTerminate:
 		err := srv.handleConnTerminate(ctx)
 		if err != nil {
@@ -391,6 +388,41 @@ func (srv *Session) handleDescribe(ctx context.Context, reader *buffer.Reader, w
 	}
 
 	return srv.extendedError(writer, fmt.Errorf("unknown describe command: %q", string(d[0])))
+}
+
+// handleClose closes the prepared statement or portal bound to the name given
+// by the client. The name can no longer be resolved once closed, closing a
+// unknown name is not an error.
+func (srv *Session) handleClose(ctx context.Context, reader *buffer.Reader, writer *buffer.Writer) error {
+	d, err := reader.GetBytes(1)
+	if err != nil {
+		return err
+	}
+
+	name, err := reader.GetString()
+	if err != nil {
+		return err
+	}
+
+	var cache any
+	switch types.DescribeMessage(d[0]) {
+	case types.DescribeStatement:
+		cache = srv.Statements
+	case types.DescribePortal:
+		cache = srv.Portals
+	default:
+		return srv.extendedError(writer, fmt.Errorf("unknown close command: %q", string(d[0])))
+	}
+
+	if closer, ok := cache.(CacheCloser); ok {
+		err = closer.Close(ctx, name)
+		if err != nil {
+			return srv.extendedError(writer, err)
+		}
+	}
+
+	writer.Start(types.ServerCloseComplete)
+	return writer.End()
 }
 
 // https://www.postgresql.org/docs/15/protocol-message-formats.html
